@@ -286,14 +286,20 @@ func ZZH_C15_logout_submission() {
 	post, ok := zzProposalOf(w, p.Id)
 	zz.Assert("C15.logout.proposal-kept", ok && post.Status == status)
 	zz.Assert("C15.logout.available-electors-after-submission", post.AvailableElectorateNum == 3)
-	result := []string{string(APPROVED), string(REJECTED)}[zz.Choice("verdict", 2)]
+	// the verdict as the governance contract hands it to Manage: approved, rejected, or - when the
+	// rejected logout had locked a lower-priority proposal of the admin (a pending freeze) that is now
+	// restored - that proposal's event type
+	result := []string{string(APPROVED), string(REJECTED), string(governance.EventFreeze)}[zz.Choice("verdict", 3)]
 	_, merr := zzTx(w, cs[zzRoleAddr], zzRoleAddr, zzGovAddr, "Manage",
 		[]*pb.Arg{pb.String(string(governance.EventLogout)), pb.String(result), pb.String(string(governance.GovernanceAvailable)), pb.String(who), pb.Bytes(nil)})
 	zz.Assert("C15.logout.concluded", merr == nil)
 	post2, _ := zzProposalOf(w, p.Id)
+	var r2 Role
+	w.getObj(zzRoleAddr, RoleKey(who), &r2)
 	want := uint64(3)
-	if result == string(REJECTED) {
+	if result != string(APPROVED) {
 		want = 4
+		zz.Assert("C15.logout.admin-is-an-elector-again", r2.IsAvailable())
 	}
 	zz.Assert("C15.logout.available-electors-after-the-verdict", post2.AvailableElectorateNum == want)
 	zz.Assert("C15.logout.never-more-than-the-initial-electorate", post2.AvailableElectorateNum <= post2.InitialElectorateNum)
